@@ -56,6 +56,10 @@ def run(ck):
     from ..report import RuleView
     from . import c08
     c08._resolve_conservation(RuleView(ck, {"C08.5": "C10.7"}))
+    ck.clause("C10.13", "in 'best' mode a query's record is chosen by its own id alone: its joined record if it has one, else its best "
+                        "single-pass record - selected by membership of the id, not by walking two lists in step (as C05.6)")
+    from . import c05 as _c05
+    _c05.run(RuleView(ck, {"C05.6": "C10.13"}))
     ck.clause("C10.11", "where the rest of a molecule can be placed does not depend on what other molecules of the run mapped to: the "
                         "second pass re-aligns against the references as received (as C08.13)")
     c08._aligned_rest(RuleView(ck, {"C08.13": "C10.11"}), {}, None)
@@ -487,6 +491,32 @@ def id_filters(ck, rule_filter, rule_order):
                     oki = itoks is not None and R.roles_of_tokens(itoks).get("query/reference") == want and "ids" in itoks
                     ck.judge(oki, rule_filter, f"Program.__readMaps:{c.fn.name}:ids", site.where,
                              f"{c.fn.name} is restricted by the {side} ids", found=ast.unparse(ia[0]), required=f"self.args.{side}Ids")
+    if n == 0:
+        # the reader method is handed to a helper as a value: helper(<file>, <ids>, cmapReader.readQueries) - the other arguments of
+        # that call are the file and the ids the method is applied to, and must be of the method's side
+        for f in readers:
+            for node in ast.walk(f.node):
+                if not isinstance(node, ast.Call):
+                    continue
+                refs = [a for a in list(node.args) + [k.value for k in node.keywords] if isinstance(a, ast.Attribute)
+                        and a.attr in ("readReferences", "readQueries", "readQuery", "readReference")]
+                if len(refs) != 1:
+                    continue
+                name = refs[0].attr
+                side = "reference" if "eference" in name else "query"
+                want = 1 if side == "reference" else 0
+                others = [a for a in list(node.args) + [k.value for k in node.keywords] if a is not refs[0]]
+                roles = []
+                for a in others:
+                    toks = R.access_path_tokens(a)
+                    roles.append((a, toks, R.roles_of_tokens(toks).get("query/reference") if toks else None))
+                if len(roles) != 2 or any(r is None for _, _, r in roles):
+                    raise AnalysisError(f"{where(f, node)}: {name} is handed on as a value with arguments that are not understood: {ast.unparse(node)[:160]}")
+                n += 1
+                for a, toks, r in roles:
+                    what = "ids" if "ids" in toks else "file"
+                    ck.judge(r == want, rule_filter, f"Program.__readMaps:{name}:{what}", where(f, node),
+                             f"{name} is applied to the {side} {what}", found=ast.unparse(a), required=f"self.args.{side}{'Ids' if what == 'ids' else 'File'}")
     ck.floor(f"{rule_filter} reader calls in Program.__readMaps", n, 2)
     # public entry points hand the ids on to the private reader
     cr = p.find_class("CmapReader")
